@@ -237,6 +237,11 @@ def handler(st, opts):
     yd = [t.detach().clone().requires_grad_(True) for t in c.y]
     wd = [t.detach().clone().requires_grad_(True) for t in c.w] if c.w is not None else None
     vd = eval_dense(c, xd, yd, body, head, red, wd)
+    if red == "norm" and vd.item() == 0.0:
+        # the program is identically zero (t - t somewhere inside): the norm is not differentiable there and its floating-point
+        # value is the square root of cancellation noise - outside the property's claim (the exclusion of spec/Expr.tla, decided
+        # on the dense program so that it also covers zeros buried deeper in the body)
+        return {"problems": [], "stats": {"behaviours": 1, "calls": 1, "skipped_norm_of_zero": 1}}
     dl = {"x": xd, "x0": [xd[0]], "xl": [xd[-1]], "xr": [xd[-1], xd[0]], "y": yd, "xy": xd + yd, "wx": (wd or []) + xd}[track]
     ref = torch.autograd.grad(vd, dl, allow_unused=True)
     vscale = max(abs(vd.item()), 1e-300) if S.get("scale", "unit") == "tiny" else max(1.0, abs(vd.item()))
